@@ -53,6 +53,8 @@ def _lines(case):
     lines = list(case['prog']['lines'])
     if case['probe']:
         lines = PROBE + lines[:-1] + [f'({lines[-1]}) + cnt_probe * 1000']
+    if case['prog'].get('shared_last_line'):
+        lines = lines[:-2] + [lines[-2] + '; ' + lines[-1]]      # the statement in front of the final expression shares its line
     return lines
 
 
@@ -109,9 +111,16 @@ def _native(case, delta, with_symbols, sym_delta=None):
             g[k] = _spec_value(spec, sd)
     lines = _lines(case)
     out = {}
+    # what python computes: everything but the final expression statement executed, that expression evaluated (it may share its line
+    # with statements in front of it)
+    import ast
+    tree = ast.parse('\n'.join(lines), '<native>', 'exec')
+    final = tree.body.pop()
+    if not isinstance(final, ast.Expr):
+        raise HarnessError('generated program does not end with an expression')
     try:
-        exec(compile('\n'.join(lines[:-1]), '<native>', 'exec'), g)
-        out['r'] = ('ok', eval(compile(lines[-1], '<native>', 'eval'), g))
+        exec(compile(tree, '<native>', 'exec'), g)
+        out['r'] = ('ok', eval(compile(ast.Expression(final.value), '<native>', 'eval'), g))
     except Exception as e:      # noqa
         out['r'] = ('err', type(e))
     fs = case['fstr']
